@@ -30,7 +30,7 @@ CFGS = {
     "thorough": ["MC_core_small.cfg", "MC_core_loops.cfg", "MC_core_3n.cfg"],
 }
 
-LABS = ["int", "zero", "int_rev", "neg", "big", "str", "tuple", "mixed", "npt"]
+LABS = ["int", "zero", "int_rev", "neg", "big", "str", "tuple", "mixed", "npt", "cross0"]
 
 
 def _norm_call(c):
